@@ -43,14 +43,17 @@ type PathItem struct {
 	Summary     string       `json:"summary,omitempty"`
 	Description string       `json:"description,omitempty"`
 	Parameters  []*Parameter `json:"parameters,omitempty"`
-	Get         *Operation   `json:"get,omitempty"`
-	Put         *Operation   `json:"put,omitempty"`
-	Post        *Operation   `json:"post,omitempty"`
-	Delete      *Operation   `json:"delete,omitempty"`
-	Options     *Operation   `json:"options,omitempty"`
-	Head        *Operation   `json:"head,omitempty"`
-	Patch       *Operation   `json:"patch,omitempty"`
-	Trace       *Operation   `json:"trace,omitempty"`
+	// servers of a path item / an operation name other hosts for it; the base path of the
+	// generated API comes from the document's own servers only
+	Servers []*Server  `json:"servers,omitempty"`
+	Get     *Operation `json:"get,omitempty"`
+	Put     *Operation `json:"put,omitempty"`
+	Post    *Operation `json:"post,omitempty"`
+	Delete  *Operation `json:"delete,omitempty"`
+	Options *Operation `json:"options,omitempty"`
+	Head    *Operation `json:"head,omitempty"`
+	Patch   *Operation `json:"patch,omitempty"`
+	Trace   *Operation `json:"trace,omitempty"`
 }
 
 // Methods in goag's own iteration order (httpMethods()): the order in which
@@ -125,6 +128,7 @@ type Operation struct {
 	RequestBody *RequestBody           `json:"requestBody,omitempty"`
 	Responses   map[string]*Response   `json:"responses"`
 	Security    *[]map[string][]string `json:"security,omitempty"`
+	Servers     []*Server              `json:"servers,omitempty"`
 }
 
 type Parameter struct {
